@@ -19,6 +19,7 @@ from mc.lattice import Emb
 FIELDS = ("type", "client", "hostname", "name", "data")
 A1 = "1"  # the fully operated bucket's id is a numeric string (equal, as a number, to the row key of the passive bucket created first)
 B2 = "B'\"%;--"  # the second operated bucket's id carries SQL-special characters
+P0 = "1 "  # the passive bucket's id differs from A1 by trailing whitespace only (seeded: lookup strips the id)
 ALL_SUBSETS = [c for k in range(1, 6) for c in itertools.combinations(FIELDS, k)]
 QUICK_SUBSETS = [("type",), ("client",), ("hostname",), ("name",), ("data",), ("type", "data"), FIELDS]
 EXTEND_SUBSETS = (FIELDS, ("data",))
@@ -127,9 +128,9 @@ class World:
     def __init__(self, backend, wdir):
         self.ds = S.fresh(backend, wdir)
         emb = _G["emb"]
-        S.mk_bucket(self.ds, "P")
-        self.ds["P"].insert([emb.ev(0, 1, "p"), emb.ev(1, 0, "p")])
-        self.model = {"P": {"meta": norm_meta(self.ds["P"].metadata()), "events": sorted(t[1:] for t in S.dump_bucket(self.ds, "P"))}}
+        S.mk_bucket(self.ds, P0)
+        self.ds[P0].insert([emb.ev(0, 1, "p"), emb.ev(1, 0, "p")])
+        self.model = {P0: {"meta": norm_meta(self.ds[P0].metadata()), "events": sorted(t[1:] for t in S.dump_bucket(self.ds, P0))}}
         self.stale = {}
         self.deletes = 0
         self.nev = 0
